@@ -24,12 +24,12 @@ from vf.serverconn import ConnHarness, model_projection  # noqa: E402
 
 FLAG_NAMES = ["OneResponse", "WellFormed", "NeverTorn", "ThenClosed", "GateC04", "NoneBeyondRefusal",
               "FirstRejectionWins", "AtMostOnce", "TimerWhileWaiting", "AnsweredWhenQuiet", "SegIndep",
-              "OnlyValidReachHandler", "Progress", "TimeoutHarmless", "TimeoutAnswers"]
+              "OnlyValidReachHandler", "Progress", "TimeoutHarmless", "TimeoutAnswers", "ConsultedWithRealIdentity"]
 OWN = {
     # TimerWhileWaiting is C01's "stalled past the request timeout => a response": an open connection with an
     # incomplete request and no armed timer is never answered
     "C01": ["OneResponse", "WellFormed", "NeverTorn", "ThenClosed", "AnsweredWhenQuiet", "TimerWhileWaiting", "Progress"],
-    "C04": ["GateC04", "NoneBeyondRefusal", "FirstRejectionWins"],
+    "C04": ["GateC04", "NoneBeyondRefusal", "FirstRejectionWins", "ConsultedWithRealIdentity"],
     "C07": ["AtMostOnce", "SegIndep", "Progress"],
     "C08": ["OnlyValidReachHandler", "SegIndep", "Progress"],
     "C15": ["TimerWhileWaiting", "TimeoutHarmless", "TimeoutAnswers"],
@@ -57,7 +57,7 @@ def plain(x):
 def obs_json(o):
     return {"wire": [{"st": w[0], "body": w[1], "metaOK": w[2]} for w in o["wire"]], "tp": o["tp"],
             "armed": o["timer"] == "armed", "h": o["calls"]["h"], "u": o["calls"]["u"], "mw": o["calls"]["mw"],
-            "busy": o["busy"], "torn": o["torn"]}
+            "busy": o["busy"], "torn": o["torn"], "consultedOK": o.get("consultedOK", True)}
 
 
 def cfg_json(cfg):
